@@ -84,7 +84,25 @@ func c05Gen(rng *verifsim.RNG, idx int, tier string) *Plan {
 		}
 		return p
 	}
-	switch rng.Pick(5, 2, 2, 2) {
+	switch rng.Pick(5, 2, 2, 2, 3) {
+	case 4:
+		// the same Advertiser runs its loop again after a re-initialisation (the
+		// Dialer re-dials and Run calls advertise() once more): nothing of the
+		// previous generation's pacing may leak into the next one
+		p.Class = "regenerated"
+		for i := 0; i < 128; i++ {
+			mn, mx := c05Pair(rng.Intn(c05Total()))
+			if rng.Bool(0.5) {
+				mx = rng.Range(4, 40)
+				mn = 3
+				if mx*3/4 > 3 {
+					mn = rng.Range(3, mx*3/4)
+				}
+			}
+			// outage between the generations: shorter and longer than a wait
+			out := int64(rng.Dur(time.Millisecond, time.Duration(3*mx)*time.Second))
+			p.Steps = append(p.Steps, Step{Kind: "pair", A: int64(mn) * nsSec, B: int64(mx) * nsSec, S: "regen", L: []int64{out}})
+		}
 	case 0:
 		for i := 0; i < c05Block; i++ {
 			mn, mx := c05Pair(rng.Intn(c05Total()))
@@ -182,6 +200,27 @@ func init() {
 				// the loop is now in its wait: stop it and make sure it stops
 				cancel()
 				w.log.Add(verifsim.Event{K: "mc.cancel", Node: j})
+				if st.S == "regen" {
+					// outage, then the next generation on the same Advertiser
+					time.Sleep(time.Duration(st.L[0]))
+					ctx2, cancel2 := context.WithCancel(context.Background())
+					ipC2 := make(chan netip.Addr)
+					go func() {
+						a.multicast(ctx2, ipC2)
+						w.log.Add(verifsim.Event{K: "mc.returned", Node: j, V: 2})
+					}()
+					for k := 0; k <= 4; k++ {
+						<-ipC2
+						w.log.Add(verifsim.Event{K: "mc.req2", Node: j, V: int64(k)})
+					}
+					cancel2()
+					select {
+					case <-ipC2:
+						w.log.Add(verifsim.Event{K: "mc.req", Node: j, V: -1})
+					case <-time.After(time.Duration(st.B) + 20*time.Second):
+					}
+					return
+				}
 				select {
 				case <-ipC:
 					w.log.Add(verifsim.Event{K: "mc.req", Node: j, V: -1})
@@ -229,6 +268,7 @@ func c05Oracle(info *runInfo, res *verifsim.Result) {
 	}
 	steps := info.plan.Steps
 	type st struct {
+		req2     []int64
 		req      []int64
 		cancelT  int64
 		after    bool
@@ -249,6 +289,9 @@ func c05Oracle(info *runInfo, res *verifsim.Result) {
 				ss[e.Node].req = append(ss[e.Node].req, e.T)
 				ss[e.Node].perT[e.T]++
 			}
+		case "mc.req2":
+			ss[e.Node].req2 = append(ss[e.Node].req2, e.T)
+			ss[e.Node].perT[e.T]++
 		case "mc.cancel":
 			ss[e.Node].cancelT = e.T
 		case "mc.returned":
@@ -269,6 +312,14 @@ func c05Oracle(info *runInfo, res *verifsim.Result) {
 		for k := 0; k+1 < len(s.req); k++ {
 			wt := s.req[k+1] - s.req[k]
 			c05Judge(res, mn, mx, wt, fmt.Sprintf("wait #%d", k), k, !stalled)
+		}
+		if steps[j].S == "regen" {
+			if len(s.req2) < 5 {
+				res.Violate("C05.recur", "stuck-after-reinit", "min=%s max=%s: only %d of 5 requests were made after re-initialisation", time.Duration(mn), time.Duration(mx), len(s.req2))
+			}
+			for k := 0; k+1 < len(s.req2); k++ {
+				c05Judge(res, mn, mx, s.req2[k+1]-s.req2[k], fmt.Sprintf("wait #%d after re-initialisation", k), k, true)
+			}
 		}
 		for t, n := range s.perT {
 			if n > 4 {
